@@ -483,9 +483,9 @@ def run(tier):
     # end to end with the real backends on name relations (suffix, prefix, sub-directory, space)
     t = time.time()
     pairs = [("main.h", "xmain.h"), ("main.h", "sub/main.h"), ("a.h", "b.h"), ("sub/main.h", "main.h"), ("main.h", "main.hx"),
-             ("my main.h", "inc dir/other.h"), ("m.h", "dir.h/m.h2")]
+             ("my main.h", "inc dir/other.h"), ("m.h", "dir.h/m.h2"), ("h", "hh")]
     if tier == "thorough":
-        pairs += [("x/y/main.h", "y/main.h"), ("main.h", "amain.h.h"), ("a b/c.h", "b/c.h"), ("h", "hh"), ("main.hpp", "main.h")]
+        pairs += [("x/y/main.h", "y/main.h"), ("main.h", "amain.h.h"), ("a b/c.h", "b/c.h"), ("README", "hh"), ("main.hpp", "main.h")]
     have_gpp = shutil.which("g++") is not None
     try:
         import pcpp  # noqa
@@ -503,7 +503,7 @@ def run(tier):
             ck.traces += 2
             ck.sample(dict(backend=backend, main=main_rel, include=inc_rel, verdict=bad or "ok"), limit=30)
             if bad:
-                rel = "suffix" if inc_rel.endswith(main_rel) else "other"
+                rel = "no-extension" if "." not in os.path.basename(main_rel) else ("suffix" if inc_rel.endswith(main_rel) else "other")
                 body = ("from vf.props import c19\n" f"bad = c19.e2e_judge({backend!r}, {main_rel!r}, {inc_rel!r})\nprint(bad)\nsys.exit(1 if bad else 0)\n")
                 ck.violation(bad, ck.write_replay(body), key=dict(kind="e2e", backend=backend, relation=rel))
         # the main file named by a relative path that also lies below an include path
